@@ -131,8 +131,7 @@ def main(pid, argv):
             ck.evaluations += 1
         if bad:
             nf += 1
-            if nf <= 3:
-                ck.fail("svc-survive", line, bad, impl=il[:1500], model=ml[:1500])
+            ck.fail("svc-survive", line, bad, impl=il[:1500], model=ml[:1500])
     ck.extra["failing_inputs_total"] = nf
     ck.extra["service_runs"] = len(lines)
     for line, il in list(zip(lines, impl))[:: max(1, len(lines) // 4)]:
